@@ -65,6 +65,10 @@ def menu(I, s):
         tds('TD_DepOther', I + 'DepOther', '_' + I + 'DepOther'),
         tds('TD_BarThing', 'BarThing', '_BarThing'),
         tds('TD_Widget', 'Widget', '_Widget'),
+        # type names with digits: a capital after a digit starts a word (H264Decoder -> h264_decoder)
+        tds('TD_H264Decoder', I + 'H264Decoder', '_' + I + 'H264Decoder'),
+        tds('TD_3DPoint', I + '3DPoint', '_' + I + '3DPoint'),
+        tds('TD_V4L2Dev', I + 'V4L2Dev', '_' + I + 'V4L2Dev'),
         tds('TD_ExtThing', I + 'ExtThing', '_' + I + 'ExtThing'),
         # functions
         fn('text_get_type', s + '_text_get_type', 'GType'),
@@ -98,6 +102,11 @@ def menu(I, s):
         fn('bar_thing_do', 'bar_thing_do', 'void', [['BarThing*', 't']]),
         fn('bar_text_poke', 'bar_text_poke', 'void', [[I + 'Text*', 'self']]),
         fn('widget_show', 'widget_show', 'void', [['Widget*', 'w']]),
+        fn('h264_get_type', s + '_h264_decoder_get_type', 'GType'),
+        fn('h264_new', s + '_h264_decoder_new', I + 'H264Decoder*'),
+        fn('h264_reset', s + '_h264_decoder_reset', 'void', [[I + 'H264Decoder*', 'self']]),
+        fn('p3d_len', s + '_' + camel_to_uscore('3DPoint') + '_len', 'int', [[I + '3DPoint*', 'p']]),
+        fn('v4l2_open', s + '_' + camel_to_uscore('V4L2Dev') + '_open', 'int', [[I + 'V4L2Dev*', 'd']]),
         fn('ext_thing_frob', s + '_ext_thing_frob', 'void', [[I + 'ExtThing*', 't']]),
         fn('ext_init', s + '_ext_init', 'void'),
         # annotated as methods: the name need not carry the type's prefix, the first parameter must
@@ -708,7 +717,8 @@ def expectation(cfg, items, dump):
 def gtype_name_for(I, s, fname):
     """The GType name a get-type function of the menu registers (what the library's
     runtime would report): <s>_text_get_type -> <I>Text."""
-    table = {s + '_text_get_type': I + 'Text', s + '_text_buffer_get_type': I + 'TextBuffer'}
+    table = {s + '_text_get_type': I + 'Text', s + '_text_buffer_get_type': I + 'TextBuffer',
+             s + '_h264_decoder_get_type': I + 'H264Decoder'}
     return table.get(fname)
 
 
